@@ -665,6 +665,15 @@ def r7_defaults_path(ctx):
                     # item stores into that dict: value flows from parse_directive_optstr(...)
                     stores = [s for s in ast.walk(fp.node) if isinstance(s, ast.Assign) and any(isinstance(t, ast.Subscript) and is_name(t.value, v.id) for t in s.targets)]
                     good = bool(stores)
+                    # the value stored under the directive's name is that directive's polarity (`-SKIP` on the command line switches SKIP off)
+                    for s in stores:
+                        t0 = [t for t in s.targets if isinstance(t, ast.Subscript)][0]
+                        keyobj = t0.slice.value if isinstance(t0.slice, ast.Attribute) and t0.slice.attr == 'name' else None
+                        if keyobj is not None:
+                            pol_ok = isinstance(s.value, ast.Attribute) and s.value.attr == 'positive' and ast.unparse(s.value.value) == ast.unparse(keyobj)
+                            rep.ob('C04.R7', ctx.loc(fp, s), ctx.src(s), pol_ok,
+                                   'default options carry their sign' if pol_ok else
+                                   'the default state stores %s under the name of the parsed directive instead of its polarity: `--options=-SKIP` then behaves like `+SKIP`' % ctx.src(s.value), anchor=fp.qualname)
                     for s in stores:
                         names = [x for x in ast.walk(s) if isinstance(x, ast.Name) and isinstance(x.ctx, ast.Load) and x.id not in (v.id,)]
                         src_ok = False
@@ -1003,6 +1012,7 @@ DE = 'xdoctest/doctest_example.py'
 DI = 'xdoctest/directive.py'
 SA = 'xdoctest/static_analysis.py'
 VARIANTS = [
+    fire('default-options-lose-their-sign', 'C04.R7', (DE, "                default_runtime_state[directive.name] = directive.positive\n", "                default_runtime_state[directive.name] = True\n")),
     fire('requires-argument-keeps-the-parenthesis', 'C04.R14', ('xdoctest/directive.py', "        body = optpart[paren_pos + 1:optpart.find(')')]\n", "        body = optpart[paren_pos + 0:optpart.find(')')]\n")),
     fire('noop-effect-ends-the-directive', 'C04.R12', ('xdoctest/directive.py', "                if action == 'noop':\n                    continue\n", "                if action == 'noop':\n                    break\n")),
     fire('overlay-recopied-for-every-inline-effect', 'C04.R13', ('xdoctest/directive.py', "                elif action == 'set.add':\n                    if key not in state:\n", "                elif action == 'set.add':\n                    if directive.inline:\n")),
